@@ -489,7 +489,9 @@ class UidSearchCommand(SearchCommand):
     @classmethod
     def parse(cls, buf: memoryview, params: Params) \
             -> tuple[UidSearchCommand, memoryview]:
-        ret, buf = super().parse(buf, params.copy(uid=True))
+        # only the results are UIDs, sequence sets in the search keys still
+        # hold sequence numbers unless prefixed with the UID key
+        ret, buf = super().parse(buf, params)
         if not isinstance(ret, UidSearchCommand):
             raise TypeError(ret)
         return ret, buf
